@@ -513,6 +513,44 @@ def run_driver(binary, args, timeout=1800, env=None, stdin=None):
     return p.stdout, time.time() - t0
 
 
+def run_driver_sharded(binary, behs, inp, outp, extra=(), timeout=3000, shards=None, env=None):
+    """Replay `behs` with `binary -in <file> -out <file> extra...` in parallel processes (the drivers are sequential
+    and spend their time in BLS); writes the whole input to `inp` (the replay path) and the merged result to `outp`."""
+    from concurrent.futures import ThreadPoolExecutor
+    write_ndjson(inp, behs)
+    n = shards or max(1, min(NCPU, len(behs) // 40))
+    t0 = time.time()
+    if n == 1:
+        run_driver(binary, ["-in", inp, "-out", outp] + list(extra), timeout=timeout, env=env)
+        return json.load(open(outp)), time.time() - t0
+    parts = []
+    for k in range(n):
+        pi, po = "%s.shard%d" % (inp, k), "%s.shard%d" % (outp, k)
+        write_ndjson(pi, behs[k::n])
+        parts.append((pi, po))
+    with ThreadPoolExecutor(n) as ex:
+        list(ex.map(lambda pp: run_driver(binary, ["-in", pp[0], "-out", pp[1]] + list(extra), timeout=timeout, env=env), parts))
+    res = None
+    for pi, po in parts:
+        r = json.load(open(po))
+        if res is None:
+            res = r
+        else:
+            for k in ("behaviours", "steps", "nontrivial"):
+                res[k] = res.get(k, 0) + r.get(k, 0)
+            for k in ("violations", "divergences", "notes", "samples"):
+                res[k] = (res.get(k) or []) + (r.get(k) or [])
+            for k, v in (r.get("counters") or {}).items():
+                res["counters"][k] = res["counters"].get(k, 0) + v
+        os.remove(pi)
+        os.remove(po)
+    res["notes"] = sorted(set(res.get("notes") or []))
+    res["samples"] = (res.get("samples") or [])[:3]
+    with open(outp, "w") as f:
+        json.dump(res, f)
+    return res, time.time() - t0
+
+
 def seed_from_env():
     try:
         return int(os.environ.get("VERIF_SEED", "1"))
